@@ -287,4 +287,77 @@ def exAud : ExtXMediaBuilder :=
   { media_type := some MediaType.audio, group_id := some "g".toList, name := some "n".toList, is_forced := some true }
 example : exSub.build.isOk = true ∧ exAud.build.isOk = false := by decide
 
+/-! ## enumerated values: exactly the names of the table, nothing dressed -/
+
+theorem lookupIdx_go_mem (names : List String) (s : Str) (i j : Nat) (h : lookupIdx.go s names i = some j) :
+    ∃ n ∈ names, n.toList = s := by
+  induction names generalizing i with
+  | nil => simp [lookupIdx.go] at h
+  | cons n ns ih =>
+    simp only [lookupIdx.go] at h
+    by_cases hn : (n.toList == s) = true
+    · exact ⟨n, by simp, eq_of_beq hn⟩
+    · simp only [hn, Bool.false_eq_true, if_false] at h
+      obtain ⟨m, hm, hs⟩ := ih (i + 1) h
+      exact ⟨m, by simp [hm], hs⟩
+
+/-- a string found in a name table IS one of the names (the lookup compares whole strings) -/
+theorem lookupIdx_mem (names : List String) (s : Str) (j : Nat) (h : lookupIdx names s = some j) :
+    ∃ n ∈ names, n.toList = s := lookupIdx_go_mem names s 0 j h
+
+/-- no name of any enumerated type regenerated from the source contains a quote, an apostrophe or a blank -/
+theorem enum_names_bare : ∀ n ∈ Generated.encryptionMethodNames ++ Generated.hdcpLevelNames ++ Generated.mediaTypeNames ++ Generated.inStreamIdNames,
+    ∀ c ∈ n.toList, c ≠ '"' ∧ c ≠ '\'' ∧ c ≠ ' ' := by decide +kernel
+
+/-- `TYPE`, `HDCP-LEVEL`, `INSTREAM-ID`: a value is accepted only if it is one of the table's names as written — so a value
+dressed with quotes (`"AUDIO"`, `AUD"IO`), apostrophes or blanks is rejected, as `END-ON-NEXT="YES"` (`dateRange_end_on_next`),
+`METHOD="AES-128"` (`method_values`) and `DEFAULT="YES"` (`yes_no_values`) are -/
+theorem mediaType_values (s : Str) (h : (MediaType.parse s).isOk = true) : ∃ n ∈ Generated.mediaTypeNames, n.toList = s := by
+  unfold MediaType.parse at h
+  cases hl : lookupIdx Generated.mediaTypeNames s with
+  | none => rw [hl] at h; simp [Res.ofOpt, Res.isOk] at h
+  | some j => exact lookupIdx_mem _ _ _ hl
+
+theorem hdcpLevel_values (s : Str) (h : (HdcpLevel.parse s).isOk = true) : ∃ n ∈ Generated.hdcpLevelNames, n.toList = s := by
+  unfold HdcpLevel.parse at h
+  cases hl : lookupIdx Generated.hdcpLevelNames s with
+  | none => rw [hl] at h; simp [Res.ofOpt, Res.isOk] at h
+  | some j => exact lookupIdx_mem _ _ _ hl
+
+theorem inStreamId_values (s : Str) (h : (InStreamId.parse s).isOk = true) : ∃ n ∈ Generated.inStreamIdNames, n.toList = s := by
+  unfold InStreamId.parse at h
+  cases hl : lookupIdx Generated.inStreamIdNames s with
+  | none => rw [hl] at h; simp [Res.isOk] at h
+  | some j => exact lookupIdx_mem _ _ _ hl
+
+/-- hence: a quote anywhere in the value of an enumerated attribute means rejection -/
+theorem enum_quote_rejected (s : Str) (hq : '"' ∈ s) :
+    (MediaType.parse s).isOk = false ∧ (HdcpLevel.parse s).isOk = false ∧ (InStreamId.parse s).isOk = false ∧
+    (EncryptionMethod.parse s).isOk = false ∧ (parseYesNo s).isOk = false := by
+  have bare := enum_names_bare
+  refine ⟨?_, ?_, ?_, ?_, ?_⟩
+  · cases h : (MediaType.parse s).isOk with
+    | false => rfl
+    | true =>
+      obtain ⟨n, hn, rfl⟩ := mediaType_values s h
+      exact absurd rfl (bare n (by simp [hn]) '"' hq).1
+  · cases h : (HdcpLevel.parse s).isOk with
+    | false => rfl
+    | true =>
+      obtain ⟨n, hn, rfl⟩ := hdcpLevel_values s h
+      exact absurd rfl (bare n (by simp [hn]) '"' hq).1
+  · cases h : (InStreamId.parse s).isOk with
+    | false => rfl
+    | true =>
+      obtain ⟨n, hn, rfl⟩ := inStreamId_values s h
+      exact absurd rfl (bare n (by simp [hn]) '"' hq).1
+  · cases h : (EncryptionMethod.parse s).isOk with
+    | false => rfl
+    | true =>
+      rcases (method_values s).mp h with rfl | rfl <;> exact absurd hq (by decide)
+  · cases h : (parseYesNo s).isOk with
+    | false => rfl
+    | true =>
+      rcases (yes_no_values s).mp h with rfl | rfl <;> exact absurd hq (by decide)
+
 end Hls.C14
